@@ -38,11 +38,15 @@ ASAN_OPTS = "detect_leaks=0:abort_on_error=0:allocator_may_return_null=1:detect_
 LEVELS = {}  # property -> level, filled from MANIFEST.json
 
 
+NOTES = {}  # property -> level_note of MANIFEST.json (what is assumed / trusted)
+
+
 def load_manifest_levels():
     try:
         m = json.load(open(os.path.join(VERIF, "MANIFEST.json")))
         for c in m.get("checks", []):
             LEVELS[c["property_id"]] = c["level_claimed"]["category"]
+            NOTES[c["property_id"]] = c.get("level_note", "")
     except Exception:
         pass
 
@@ -467,7 +471,8 @@ def make_evidence(prop, tier, seed, level, cfg, harness, stats_all, engines_coun
         "seed": seed,
         "level": level,
         "coverage": cov,
-        "assumptions": cfg.get("assumptions", {}).get(prop, []) + cfg.get("assumptions", {}).get("*", []),
+        "assumptions": (cfg.get("assumptions", {}).get(prop, []) + cfg.get("assumptions", {}).get("*", [])) or
+                       [x.strip() for x in re.split(r"(?<=[.;])\s+(?=[A-Z(])", NOTES.get(prop, "")) if x.strip()],
         "wall_s": round(time.time() - t0, 2),
         "violations": len(violations),
     }
